@@ -202,9 +202,11 @@ def Conforms (facts : List Access) (tc : Thread → Nat) (tr : List Ev) : Prop :
     ∃ a, facts[f]? = some a ∧ a.cls = x.1 ∧ tc t = a.thread ∧
       ∀ l ∈ a.locks, holderOf pre (l.inst x.2) = some t
 
-/-- thread classes flagged `single` contain one thread -/
-def SingletonThreads (facts : List Access) (tc : Thread → Nat) : Prop :=
-  ∀ a ∈ facts, a.single = true → ∀ t t', tc t = a.thread → tc t' = a.thread → t = t'
+/-- a thread class flagged `single` has one thread among those that touch location `x` in
+    `tr` (the scheduler's two loops: one thread per server; `go x.Run()`: one per object) -/
+def SingletonThreads (facts : List Access) (tc : Thread → Nat) (tr : List Ev) (x : Loc) : Prop :=
+  ∀ a ∈ facts, a.single = true → ∀ t t' f f', Ev.acc t x f ∈ tr → Ev.acc t' x f' ∈ tr →
+    tc t = a.thread → tc t' = a.thread → t = t'
 
 theorem inst_injective (l l' : LockRef) (o : Nat) (h : l.inst o = l'.inst o) : l = l' := by
   cases l with | mk c s => cases l' with | mk c' s' =>
@@ -223,9 +225,11 @@ def LockOrdered (pre : List Ev) (e1 : Ev) (mid : List Ev) (t1 t2 : Thread) : Pro
     which the first thread gives up a mutex that both hold at their access, or (c) a pair the
     table marks as ordered by a non-lock mechanism (`exempt`: the named hypotheses). -/
 theorem lockset_discipline_race_free
-    (facts : List Access) (tc : Thread → Nat) (hsingle : SingletonThreads facts tc)
+    (facts : List Access) (tc : Thread → Nat)
     (c : Nat) (hcheck : checkClass facts c = true)
     (pre mid post : List Ev) (t1 t2 : Thread) (o f1 f2 : Nat)
+    (hsingle : SingletonThreads facts tc
+      (pre ++ Ev.acc t1 (c, o) f1 :: (mid ++ Ev.acc t2 (c, o) f2 :: post)) (c, o))
     (hwf : WF (pre ++ Ev.acc t1 (c, o) f1 :: (mid ++ Ev.acc t2 (c, o) f2 :: post)))
     (hconf : Conforms facts tc (pre ++ Ev.acc t1 (c, o) f1 :: (mid ++ Ev.acc t2 (c, o) f2 :: post)))
     (hne : t1 ≠ t2) :
@@ -262,7 +266,7 @@ theorem lockset_discipline_race_free
     unfold sameSingle at hss
     simp only [Bool.and_eq_true, beq_iff_eq] at hss
     obtain ⟨⟨hsa, _⟩, hth⟩ := hss
-    exact hne (hsingle a ham hsa t1 t2 hat (by rw [hbt, hth]))
+    exact hne (hsingle a ham hsa t1 t2 f1 f2 (by simp) (by simp) hat (by rw [hbt, hth]))
   · -- a common mutex
     right; left
     unfold lockCompat at hlk
@@ -289,10 +293,12 @@ theorem lockset_discipline_race_free
 /-- Corollary with the non-lock orderings as an explicit hypothesis `hsync`: every conflicting
     pair is ordered, by a mutex hand-over or by the assumed synchronisation. -/
 theorem race_free_under_sync_hypotheses
-    (facts : List Access) (tc : Thread → Nat) (hsingle : SingletonThreads facts tc)
+    (facts : List Access) (tc : Thread → Nat)
     (SyncOrdered : List Ev → Ev → List Ev → Prop)
     (c : Nat) (hcheck : checkClass facts c = true)
     (pre mid post : List Ev) (t1 t2 : Thread) (o f1 f2 : Nat)
+    (hsingle : SingletonThreads facts tc
+      (pre ++ Ev.acc t1 (c, o) f1 :: (mid ++ Ev.acc t2 (c, o) f2 :: post)) (c, o))
     (hwf : WF (pre ++ Ev.acc t1 (c, o) f1 :: (mid ++ Ev.acc t2 (c, o) f2 :: post)))
     (hconf : Conforms facts tc (pre ++ Ev.acc t1 (c, o) f1 :: (mid ++ Ev.acc t2 (c, o) f2 :: post)))
     (hsync : ∀ a b, facts[f1]? = some a → facts[f2]? = some b → exempt a b = true →
@@ -301,7 +307,7 @@ theorem race_free_under_sync_hypotheses
     (hconflict : (isWrite facts a || isWrite facts b) = true) :
     LockOrdered pre (Ev.acc t1 (c, o) f1) mid t1 t2 ∨ SyncOrdered pre (Ev.acc t1 (c, o) f1) mid := by
   obtain ⟨a', b', ha', hb', h⟩ :=
-    lockset_discipline_race_free facts tc hsingle c hcheck pre mid post t1 t2 o f1 f2 hwf hconf hne
+    lockset_discipline_race_free facts tc c hcheck pre mid post t1 t2 o f1 f2 hsingle hwf hconf hne
   rw [ha] at ha'; rw [hb] at hb'
   injection ha' with ha'; injection hb' with hb'
   subst ha' hb'
